@@ -331,7 +331,7 @@ func (w *World) ReportError(msg string) {
 	w.mu.Lock()
 	defer w.mu.Unlock()
 	w.Errs = append(w.Errs, ErrRec{Step: w.step, Inc: w.inc, Msg: msg, Time: time.Since(w.start)})
-	w.asyncLog = append(w.asyncLog, "err "+fmt.Sprintf("%x", fnv64([]byte(msg))))
+	w.asyncLog = append(w.asyncLog, "err")
 }
 
 // ReportPanic is installed as a utilruntime panic handler.
@@ -1060,9 +1060,109 @@ func (w *World) advance(p *Policy, idle bool) {
 	w.Sleep(d)
 }
 
-// Sleep advances the simulated clock by d.
+// Sleep advances the simulated clock by up to d. The clock moves in small
+// quanta and stops as soon as a goroutine has parked a request: a parked call
+// never ages by more than one quantum (well below every timeout in the system)
+// unless a policy decides to delay it.
 func (w *World) Sleep(d time.Duration) {
-	w.logf("advance %v", d)
+	q := d / 64
+	if q < 10*time.Millisecond {
+		q = 10 * time.Millisecond
+	}
+	if q > 400*time.Millisecond {
+		q = 400 * time.Millisecond
+	}
+	var slept time.Duration
+	for slept < d {
+		x := q
+		if d-slept < x {
+			x = d - slept
+		}
+		time.Sleep(x)
+		slept += x
+		synctest.Wait()
+		if len(w.PendingReqs()) > 0 || len(w.PendingHooks()) > 0 {
+			break
+		}
+	}
+	w.logf("advance %v", slept)
+	w.SimSeconds += slept.Seconds()
+}
+
+// SleepHard advances the clock by exactly d even while calls are parked (used
+// by fault policies that model a slow server or webhook).
+func (w *World) SleepHard(d time.Duration) {
+	w.logf("advance! %v", d)
 	w.SimSeconds += d.Seconds()
 	time.Sleep(d)
+}
+
+// DumpStore renders the stored objects whose kind contains filter ("all" = everything).
+func (w *World) DumpStore(filter string) string {
+	var b strings.Builder
+	for _, k := range w.Store.AllKeys() {
+		if filter != "all" && !strings.Contains(strings.ToLower(k.res), strings.ToLower(filter)) {
+			continue
+		}
+		fmt.Fprintf(&b, "%s %s\n", k, w.Store.objs[k].raw)
+	}
+	return b.String()
+}
+
+// AbstractState is a hash of the final cluster abstracted from identities that
+// do not matter (resourceVersions, timestamps): kind, namespace, name,
+// controller owner, labels, finalizers, deletion state and spec/data hash.
+func (w *World) AbstractState() string {
+	h := uint64(14695981039346656037)
+	mix := func(s string) {
+		for i := 0; i < len(s); i++ {
+			h ^= uint64(s[i])
+			h *= 1099511628211
+		}
+		h ^= 0xff
+		h *= 1099511628211
+	}
+	for _, k := range w.Store.AllKeys() {
+		o := w.Store.objs[k].obj
+		mix(k.String())
+		if c := controllerOf(o); c != nil {
+			mix(c.Kind + "/" + c.Name)
+		}
+		mix(jsonString(metaRO(o)["labels"]))
+		mix(jsonString(metaRO(o)["finalizers"]))
+		if metaRO(o)["deletionTimestamp"] != nil {
+			mix("deleting")
+		}
+		mix(string(specPart(o)))
+	}
+	return fmt.Sprintf("%016x", h)
+}
+
+// CountWrites is the number of mutating requests metacontroller got applied.
+func (w *World) CountWrites() int {
+	n := 0
+	for _, r := range w.Reqs {
+		if r.IsWrite() && r.Applied {
+			n++
+		}
+	}
+	return n
+}
+
+// ShortLog renders up to n interesting lines of the event log (no clock moves, no queue noise).
+func (w *World) ShortLog(n int) []string {
+	var out []string
+	for _, l := range w.Log {
+		if strings.Contains(l, " advance ") || strings.Contains(l, "  ~ q ") || strings.Contains(l, "/api?") || strings.Contains(l, "/apis?") || strings.Contains(l, "/v1? ") || strings.Contains(l, "/v1beta1? ") || strings.Contains(l, "/v1alpha1? ") {
+			continue
+		}
+		if len(l) > 200 {
+			l = l[:200]
+		}
+		out = append(out, l)
+		if len(out) >= n {
+			break
+		}
+	}
+	return out
 }
